@@ -108,6 +108,10 @@ class World:
                 st += _flat(scene._v_wind[sl] - ap.v)
         for name in ("_P0", "_P1", "_P0_joint", "_P1_joint"):
             st += _flat(getattr(scene, name))
+        if getattr(self, "extended_state", False):
+            # what the kernel actually reads between vortices and control points (incl. the cross-aircraft blocks)
+            for name in ("_r_0", "_r_1", "_r_0_joint", "_r_1_joint", "_r_0_mag", "_r_1_mag", "_r_0_joint_mag", "_r_1_joint_mag"):
+                st += _flat(getattr(scene, name))
         # per-aircraft quantities used for the reference triad / coefficients
         for ap in scene._airplane_objects:
             st += _flat(ap.q) + _flat(ap.p_bar)
